@@ -5,3 +5,4 @@ import ScadVerif.Props.C09
 import ScadVerif.Props.C10
 import ScadVerif.Props.C11
 import ScadVerif.Props.C12
+import ScadVerif.Props.C03
